@@ -52,6 +52,8 @@ pub fn main_for(prop: &'static str) {
         }
         progs.extend(depth2(&ls));
         progs.extend(interleaved_lengths(ch));
+        // scale probes: longer sources under every depth-1 program
+        progs.extend(depth1(&[Leaf::Probe(7), Leaf::Iter(9), Leaf::Inter((5 * ch + 2) as u8), Leaf::GenMut]));
         if !quick {
             // depth-3 trees over a small alphabet
             progs.extend(small_trees(3, &[Leaf::Probe(2), Leaf::Iter(1)], &[Un::Delay(1), Un::Clip]));
